@@ -22,7 +22,9 @@ type c08Item struct {
 	id    int64 // stored ID before the pass (0 = unset)
 }
 
-func (it c08Item) isValue() bool { return it.kind != 'C' && it.kind != 'S' && it.kind != 'R' && it.kind != 'O' }
+func (it c08Item) isValue() bool {
+	return it.kind != 'C' && it.kind != 'S' && it.kind != 'R' && it.kind != 'O'
+}
 
 type c08Named interface {
 	SetName(string)
